@@ -12,7 +12,7 @@ from vlib.core import Scenario, Violation, check, crash, canonical
 PROPERTY = 'C17'
 LEVEL = 'exploration'
 RULE = ('history = pool of generated expression ASTs (depth <= 5: traced functions with positional/keyword arguments that are '
-        'themselves lazy, traced classes -> instance -> attribute / item / method call / call chains, cache_result_ / lazy_result_ '
+        'themselves lazy, results that are None / 0 / '' / () / False, traced classes -> instance -> attribute / item / method call / call chains, cache_result_ / lazy_result_ '
         'flags) and a sequence of make / make-after-pickle / clear_cache / clear_object / deref / flood(n distinct cached '
         'expressions) operations; model = eager interpreter over the same AST plus explicit OrderedDict LRU caches (bounds 128 and '
         '1024) predicting values, identity of cached results, invocation counts, cache_info() and LazyObjectMissingError; second '
@@ -318,6 +318,13 @@ def _inst(depth):
                    st.sampled_from([True, True, False]), st.sampled_from([False, False, False, True]))
 
 
+def _falsy(depth):
+  """A call whose value is None / 0 / '' / () / False, cached, held as an object, or plain."""
+  sub = st.deferred(lambda: _int(max(depth - 1, 0)))
+  return st.builds(lambda a, c, l: {'k': 'call', 'fn': 'counted_falsy', 'args': [a], 'cache': c and not l, 'lazy': l}, sub,
+                   st.sampled_from([True, True, False]), st.sampled_from([False, False, True]))
+
+
 def _raising():
   return st.builds(lambda m, f: {'k': 'call', 'fn': f, 'args': [{'c': m}]}, st.sampled_from(['boom', 'x y', '']),
                    st.sampled_from(['raise_value_error', 'raise_value_error', 'raise_key_error']))
@@ -329,7 +336,7 @@ def strat_history(tier):
   @st.composite
   def s(draw):
     depth = draw(st.integers(1, 4))
-    top = st.one_of(_int(depth), _int(depth), _list(depth), _inst(depth),
+    top = st.one_of(_int(depth), _int(depth), _list(depth), _inst(depth), _falsy(depth),
                     st.builds(lambda a, r: {'k': 'call', 'fn': 'counted_add', 'args': [a, r]}, _int(1), _raising()))
     exprs = draw(st.lists(top, min_size=1, max_size=4))
     op = st.one_of(st.tuples(st.just('make'), st.integers(0, 3)).map(list), st.tuples(st.just('make'), st.integers(0, 3)).map(list),
@@ -398,7 +405,7 @@ def run_lru(case):
 
 def strat_lru(tier):
   op = st.one_of(st.tuples(st.just('get'), st.integers(0, 5)).map(list), st.tuples(st.just('set'), st.integers(0, 5), st.integers(0, 99)).map(list),
-                 st.tuples(st.just('set'), st.integers(0, 5), st.integers(0, 99)).map(list), st.just(['clear']))
+                 st.tuples(st.just('set'), st.integers(0, 5), st.sampled_from([None, 0, '', False, 7])).map(list), st.just(['clear']))
   return st.builds(lambda m, ops: {'maxsize': m, 'ops': ops}, st.integers(1, 5), st.lists(op, min_size=1, max_size=25))
 
 
